@@ -1121,7 +1121,7 @@ def denormal_case(rng, n=256, shape="balanced", tip_states=False, target=-321.3,
 
     model = build_model(with_scale(0.05))
     lo, hi = 1e-4, 0.3  # the site likelihood of the hard column increases with the scale in this range
-    for _ in range(22):
+    for _ in range(15):
         mid = math.sqrt(lo * hi)
         _tot, logs = mp_loglik(with_scale(mid), model, dps=30, sites=[hard_pos])
         if logs[0] < target:
